@@ -19,6 +19,11 @@ CHECKS = [
           "Trusted: Coq kernel, ExtrOcamlBasic extraction, harness; rust-crypto's SHA-256 is tested against the Coq implementation (FIPS vectors by vm_compute), not proved; correspondence is sampling.",
           "Coq proof (induction on digit lists, lia with div/mod) + differential correspondence of extracted model vs implementation",
           "DESIGN.md 5 C15"),
+    check("C16", "proof",
+          "Coq theorems for both state files, for all entry lists and all byte strings: de(ser l ++ rest) = (l, rest) for entries in any order; every strict prefix of a serialisation is rejected; whatever decodes is exactly the serialisation of the well-formed value returned (so damaged bytes give an error or different well-formed data, never the original and never junk). Proved once for an abstract codec (RT/LI/NE) and composed for u64, bool, 32-byte tickets, UTF-8 strings, vectors and maps. Model tied to bincode/serde as used by src/history.rs and src/current.rs by differential runs through ruler's own read/write functions (valid files, all prefixes, all single bit flips of small files, duplicate keys, hostile lengths, random bytes).",
+          "Trusted: Coq kernel, extraction, harness; bincode 1.3 + serde are modelled, not verified; no-panic of the Rust readers is observed (catch_unwind), not proved; correspondence is sampling.",
+          "Coq proof (codec combinators: round-trip + left-inverse => prefix rejection, injectivity) + differential correspondence of extracted decoder vs ruler's readers/writers",
+          "DESIGN.md 5 C16"),
 ]
 
 _PENDING = "not yet claimed: model, theorems and correspondence for this property are still being built (see DESIGN.md section 12)"
